@@ -426,3 +426,11 @@ Require Copia.Proofs.TieArchiveSave.
 Theorem C08_archive_steps_are_translation_of_source : TieArchiveSave.archive_save_is_translation.
 Proof. exact TieArchiveSave.archive_save_is_translation_holds. Qed.
 Print Assumptions C08_archive_steps_are_translation_of_source.
+
+(** The ORDER the crash theorems above assume - every data step of the plan first, the record saved once after the last of
+    them - is the translation of bidir.rs `run_bisync` as the source has it now: `apply(..)?` per plan entry in order, then
+    one `arc.save(..)` (Gen/BisyncRunGen.v, Proofs/TieBisyncRun.v). *)
+Require Copia.Proofs.TieBisyncRun.
+Theorem C08_run_is_translation_of_source : TieBisyncRun.bisync_run_is_translation.
+Proof. exact TieBisyncRun.bisync_run_is_translation_holds. Qed.
+Print Assumptions C08_run_is_translation_of_source.
